@@ -71,25 +71,38 @@ class Grid(col.MutableSequence):
 
     @staticmethod
     def _approx_check(v1, v2):
-        # Check types match
+        # Check types match: values of different kinds are never equal
         if isinstance(v1, datetime.time):
-            return v1.replace(microsecond=0) == v2.replace(microsecond=0)
+            return isinstance(v2, datetime.time) and \
+                   v1.replace(microsecond=0) == v2.replace(microsecond=0)
         elif isinstance(v1, datetime.datetime):
-            return v1.tzinfo == v2.tzinfo and \
+            return isinstance(v2, datetime.datetime) and \
+                   v1.tzinfo == v2.tzinfo and \
                    v1.date() == v2.date() and \
                    Grid._approx_check(v1.time(), v2.time())
         elif isinstance(v1, Quantity):
-            return v1.unit == v2.unit and \
+            return isinstance(v2, Quantity) and \
+                   v1.unit == v2.unit and \
                    Grid._approx_check(v1.value, v2.value)
         elif isinstance(v1, Coordinate):
-            return Grid._approx_check(v1.latitude, v2.latitude) and \
+            return isinstance(v2, Coordinate) and \
+                   Grid._approx_check(v1.latitude, v2.latitude) and \
                    Grid._approx_check(v1.longitude, v2.longitude)
+        elif isinstance(v2, (datetime.time, datetime.datetime,
+                             Quantity, Coordinate)):
+            return False
+        elif isinstance(v1, bool) or isinstance(v2, bool):
+            return isinstance(v1, bool) and isinstance(v2, bool) and v1 == v2
         elif isinstance(v1, float) or isinstance(v2, float):
-            return abs(v1 - v2) < 0.000001
+            return isinstance(v1, numbers.Number) and \
+                   isinstance(v2, numbers.Number) and \
+                   abs(v1 - v2) < 0.000001
         else:
             return v1 == v2
 
     def __eq__(self, other):
+        if not isinstance(other, Grid):
+            return NotImplemented
         if set(self.metadata.keys()) != set(other.metadata.keys()):
             return False
         for key in self.metadata.keys():
@@ -100,8 +113,8 @@ class Grid(col.MutableSequence):
             return False
 
         for col in self.column.keys():
-            if not col in other.column or \
-                    len(self.column[col]) != len(other.column[col]):
+            if len(self.column[col]) != len(other.column[col]) or \
+                    set(self.column[col]) != set(other.column[col]):
                 return False
             for key in self.column[col].keys():
                 if not Grid._approx_check(self.column[col][key], other.column[col][key]):
@@ -115,6 +128,12 @@ class Grid(col.MutableSequence):
                 if not Grid._approx_check(ref_row.get(col), parsed_row.get(col)):
                     return False
         return True
+
+    def __ne__(self, other):
+        result = self.__eq__(other)
+        return result if result is NotImplemented else not result
+
+    __hash__ = None
 
     @property
     def version(self):  # pragma: no cover
